@@ -154,15 +154,19 @@ def derived_after_overrides(repo, col, R):
         for n in ast.walk(st):
             if isinstance(n, ast.Call) and isinstance(n.func, ast.Attribute) and n.func.attr == "_compute_axial_conductances":
                 calls.append((i, n))
+    # the parameter dictionary is the local that is handed to _compute_axial_conductances (whatever it is called)
+    PD = next((a.id for _i, c_ in calls for a in list(c_.args) + [k.value for k in c_.keywords] if isinstance(a, ast.Name)), None)
+    for i, st in enumerate(body):
+        for n in ast.walk(st):
             if isinstance(n, ast.Assign):
                 for t in n.targets:
-                    if isinstance(t, ast.Subscript) and isinstance(t.value, ast.Name) and t.value.id == "params" and \
+                    if isinstance(t, ast.Subscript) and isinstance(t.value, ast.Name) and t.value.id == PD and \
                             not (isinstance(t.slice, ast.Constant) and t.slice.value == "axial_conductances"):
                         stores.append((i, n))
     if not calls or not stores:
         raise AnalysisError("get_all_parameters: computation of the axial conductances / parameter stores not found")
     ic, c = calls[-1]
-    arg_ok = any(isinstance(a, ast.Name) and a.id == "params" for a in list(c.args) + [k.value for k in c.keywords])
+    arg_ok = any(isinstance(a, ast.Name) and a.id == PD for a in list(c.args) + [k.value for k in c.keywords])
     late = [n for i, n in stores if i > ic]
     col.check(arg_ok and not late, R, fi, "axial conductances are computed from `params` after every other entry was written",
               "last statement before return",
@@ -332,10 +336,13 @@ def scatter_sites(repo, col, cl, R, RS):
         fi = repo.method("Module", name)
         ex = idx.expander(repo, fi)
         found = 0
+        # the dictionary that is assembled is the one the function returns (whatever the local is called)
+        returned = {x.id for r_ in walk_no_nested(fi.node) if isinstance(r_, ast.Return) and r_.value is not None
+                    for x in ast.walk(r_.value) if isinstance(x, ast.Name)}
         for n in ast.walk(fi.node):
             if isinstance(n, ast.Call) and isinstance(n.func, ast.Attribute) and n.func.attr in ("set", "add") and \
                     isinstance(n.func.value, ast.Subscript) and isinstance(n.func.value.value, ast.Attribute) and \
-                    n.func.value.value.attr == "at" and _named_dict(n.func.value.value.value) in PARAM_DICTS:
+                    n.func.value.value.attr == "at" and _named_dict(n.func.value.value.value) in returned:
                 found += 1
                 # an override REPLACES the tabulated value: `.add` would add the trainable / data_set value to the one from .nodes
                 col.check(n.func.attr == "set", R, fi, f"{fi.name}: overrides replace the tabulated values `{unparse(n)[:50]}`",
